@@ -8,6 +8,7 @@ N1  ``return next((e for x in D if c), default)``           ->  ``for x in D: if
 N2  a list comprehension that calls a helper which must be run in place (a private helper or local closure with
     statement effects / loops)                              ->  the accumulator loop it abbreviates
 N4  ``for x in X: acc.append(x)``                               ->  ``acc.extend(X)``
+N16 ``for .. break .. else: E``   ->  completion flag set before every break, ``if flag: E`` after the loop
 N15 search loop ``for x in D: if c: break / else: leave``, rest   ->  ``for x in D: if c: rest`` / ``leave``
 N14 ``for s in itertools.repeat(x, n): body``                      ->  ``for _ in range(n): s = x; body``
 N13 ``i = len(L); while i > 0: i -= 1; ... L[i] ...`` (and the forward form)  ->  ``for x in reversed(L)`` / ``for x in L``
@@ -203,6 +204,44 @@ class _Ctx:
                     ast.copy_location(loop, st)
                     ast.fix_missing_locations(loop)
                     return stmts[:i] + [loop] + list(st.orelse)
+        # N16  ``for x in D: .. break ..`` / ``else: E``   ->   ``ok = True`` / ``for x in D: .. ok = False; break ..`` / ``if ok: E``
+        for i, st in enumerate(stmts):
+            if isinstance(st, ast.For) and st.orelse and not getattr(st, "_qcl_plain", False):
+                flag = f"_qcl_completed_{st.lineno}"
+                found = [False]
+
+                def mark(body):
+                    out = []
+                    for b in body:
+                        if isinstance(b, ast.Break):
+                            found[0] = True
+                            out.append(ast.copy_location(ast.Assign(targets=[ast.Name(id=flag, ctx=ast.Store())], value=ast.Constant(value=False), lineno=b.lineno), b))
+                            out.append(b)
+                        elif isinstance(b, ast.If):
+                            nb = ast.If(test=b.test, body=mark(b.body), orelse=mark(b.orelse))
+                            out.append(ast.copy_location(nb, b))
+                        elif isinstance(b, (ast.With,)):
+                            nb = ast.With(items=b.items, body=mark(b.body))
+                            out.append(ast.copy_location(nb, b))
+                        elif isinstance(b, ast.Try):
+                            nb = ast.Try(body=mark(b.body), handlers=[ast.copy_location(ast.ExceptHandler(type=h.type, name=h.name, body=mark(h.body)), h) for h in b.handlers],
+                                         orelse=mark(b.orelse), finalbody=mark(b.finalbody))
+                            out.append(ast.copy_location(nb, b))
+                        else:
+                            out.append(b)
+                    return out
+                body = mark(st.body)
+                if not found[0]:
+                    # no break: the else-branch always runs after the loop
+                    loop = ast.copy_location(ast.For(target=st.target, iter=st.iter, body=st.body, orelse=[]), st)
+                    ast.fix_missing_locations(loop)
+                    return self._search_else(stmts[:i] + [loop] + list(st.orelse) + stmts[i + 1:])
+                init = ast.copy_location(ast.Assign(targets=[ast.Name(id=flag, ctx=ast.Store())], value=ast.Constant(value=True), lineno=st.lineno), st)
+                loop = ast.copy_location(ast.For(target=st.target, iter=st.iter, body=body, orelse=[]), st)
+                after = ast.copy_location(ast.If(test=ast.Name(id=flag, ctx=ast.Load()), body=list(st.orelse), orelse=[]), st.orelse[0])
+                for n_ in (init, loop, after):
+                    ast.fix_missing_locations(n_)
+                return self._search_else(stmts[:i] + [init, loop, after] + stmts[i + 1:])
         return stmts
 
     def tmp(self) -> str:
